@@ -97,6 +97,7 @@ def scenario(c: Any, P: dict) -> dict:
     class Probe:
         def __init__(self, name: str) -> None:
             self.name, self.owner, self.depth, self.got = name, None, 0, []
+            self.opened, self.closed = c.clock, None      # (virtual clock when the probe was created / received its terminal)
             probes.append(self)
 
         def _enter(self, kind: str, value: Any) -> None:
@@ -110,6 +111,8 @@ def scenario(c: Any, P: dict) -> dict:
             c.log("enter", self.name, kind)
             c.yp("in-downstream")
             self.got.append(kind)
+            if kind in "EC" and self.closed is None:
+                self.closed = c.clock
             if kind == "N" and hasattr(value, "subscribe") and not isinstance(value, (tuple, list)):
                 value.subscribe(Probe("%s/w%d" % (self.name, len(probes))))
             c.yp("in-downstream")
@@ -195,6 +198,16 @@ def scenario(c: Any, P: dict) -> dict:
                 break
             if k in "EC":
                 seen_term = True
+    if op == "window_with_time_or_count":
+        # a window that is not the last one was closed by its own rule: it holds `count` elements or it lived for the whole timespan
+        # (a stale timer of a window that was closed by count must not close its successor)
+        wins = [p for p in probes if p.name != "top"]
+        for w in wins[:-1]:
+            n_el = sum(1 for k in w.got if k == "N")
+            if w.closed is not None and w.got and w.got[-1] == "C" and n_el < P["count"] and w.closed - w.opened < P["span"] - 1e-9:
+                viol.append(("C43:window_with_time_or_count:window-closed-before-its-count-and-its-timespan",
+                             {"window": w.name, "elements": n_el, "count": P["count"], "lived": w.closed - w.opened, "span": P["span"]}))
+        calls[0] += 0
     return {"viol": viol, "obs": {"downstream_calls": calls[0], "probes": len(probes)}, "sig": {p.name: "".join(p.got) for p in probes}, "decided": True}
 
 
